@@ -29,7 +29,7 @@ Definition scheme_info (sch : N) : option (list N * Z) := assoc sch Gen.scheme_t
 Definition eff_port (dflt : Z) (explicit : option N) : option N :=
   if (dflt =? 0)%Z then Some 0
   else match explicit with
-       | Some p => Some p
+       | Some p => if p <? 65536 then Some p else None          (* the port is parsed as a 16-bit number *)
        | None => if (dflt <? 0)%Z then None else Some (Z.to_N dflt)
        end.
 
